@@ -221,6 +221,38 @@ def extractLoopN (pred : Nat → Job → Bool) (report : Bool) :
 def JobList.extractTake (s : JobList) (n : Nat) (pred : Nat → Job → Bool) (report : Bool) : List Nat × JobList :=
   extractLoopN pred report (s.entries.length + 1) n 0 s.len s []
 
+
+/-- `extract_if` / `remove_if` with an `FnMut` closure that carries its own state `σ` ("remove the first k jobs
+    that …"): same loop as `extractLoop`, the state threaded through the calls in the order of the indices -/
+def extractLoopS {σ : Type} (f : σ → Nat → Job → Bool × σ) (report : Bool) :
+    Nat → Nat → Nat → σ → JobList → List Nat → List Nat × JobList
+  | 0, _, _, _, s, acc => (acc.reverse, s)
+  | _, _, 0, _, s, acc => (acc.reverse, s)
+  | fuel+1, idx, len+1, st, s, acc =>
+    match gets s.entries idx with
+    | none => extractLoopS f report fuel (idx+1) (len+1) st s acc
+    | some j =>
+      let s1 := if report then { s with entries := s.entries.set idx (some { j with changed := false }) } else s
+      if (f st idx j).1 then
+        extractLoopS f report fuel (idx+1) len (f st idx j).2 (s1.remove idx).2 (idx :: acc)
+      else
+        extractLoopS f report fuel (idx+1) len (f st idx j).2 s1 acc
+
+def JobList.removeIfS {σ : Type} (s : JobList) (f : σ → Nat → Job → Bool × σ) (st : σ) (report : Bool) :
+    List Nat × JobList :=
+  extractLoopS f report (s.entries.length + 1) 0 s.len st s []
+
+/-- the decisions of the closure, read off the table the call starts from: the closure is run over the jobs in
+    the order of the indices (counting from `i`), every job as it is at the start -/
+def selS {σ : Type} (f : σ → Nat → Job → Bool × σ) : σ → Slab → Nat → List Nat
+  | _, [], _ => []
+  | st, none :: t, i => selS f st t (i+1)
+  | st, some j :: t, i => if (f st i j).1 then i :: selS f (f st i j).2 t (i+1) else selS f (f st i j).2 t (i+1)
+
+/-- the `FnMut` closure "remove the first `k` jobs that satisfy `p`": its state is the number still to remove -/
+def firstK (p : Nat → Job → Bool) : Nat → Nat → Job → Bool × Nat :=
+  fun c i j => if c > 0 ∧ p i j = true then (true, c - 1) else (false, c)
+
 /-- removal predicates the harness can name (the closure passed to `remove_if` / `extract_if`); the
     theorems about `removeIf` quantify over every function `Nat → Job → Bool`, this is only the
     syntax of the case language -/
